@@ -238,6 +238,29 @@ class Model:
             return 'ext:' + tgt
         return None
 
+    def global_value(self, mod, name):
+        """module-level assignment visible under `name` in `mod` (own global or `from m import name`): -> (defining module, value AST) or None"""
+        g = self.mod_globals.get(mod, {}).get(name)
+        if g is not None:
+            return mod, g
+        tgt = self.imports.get(mod, {}).get(name)
+        if tgt and '.' in tgt:
+            m2, n2 = tgt.rsplit('.', 1)
+            if m2 in self.mods and n2 in self.mod_globals.get(m2, {}):
+                return m2, self.mod_globals[m2][n2]
+        return None
+
+    def module_func(self, mod):
+        """pseudo-function standing for the module body (evaluation context of module-level expressions)"""
+        if not hasattr(self, '_modfuncs'):
+            self._modfuncs = {}
+        if mod not in self._modfuncs:
+            node = ast.parse('def _module_(): pass').body[0]
+            f = Func(mod + '.<module>', node, mod, self.mods[mod][0] if mod in self.mods else mod)
+            f.nested = {}
+            self._modfuncs[mod] = f
+        return self._modfuncs[mod]
+
     def ext_name(self, mod, expr):
         """Dotted external name of an expression such as np.floor / floor / pd.Timedelta, else None."""
         parts = []
@@ -352,6 +375,12 @@ class Model:
                     m = c.lookup(e.attr)
                     if m and m.is_property:
                         out |= self.return_types(m)
+            if not out and isinstance(e.value, ast.Name) and e.value.id == 'self' and fn.cls is not None:
+                # a method of a base class runs on instances of its subclasses: a field the base never assigns is typed by what the subclasses store there
+                for d in self.subclasses(fn.cls):
+                    if d is not fn.cls:
+                        for k in d.mro():
+                            out |= self.field_of(k, e.attr)
             return out
         if isinstance(e, ast.Subscript):
             out = set()
@@ -713,6 +742,28 @@ def _baseline():
         return {'classes': {}, 'modfuncs': {}}
 
 
+def fingerprint(fnode):
+    """identifiers a function body mentions (attribute names, called names, string constants), docstring excluded"""
+    ids = set()
+    body = fnode.body
+    if body and isinstance(body[0], ast.Expr) and isinstance(body[0].value, ast.Constant) and isinstance(body[0].value.value, str):
+        body = body[1:]
+    for st in body:
+        for n in ast.walk(st):
+            if isinstance(n, ast.Attribute):
+                ids.add('.' + n.attr)
+            elif isinstance(n, ast.Name) and n.id not in ('self', 'cls'):
+                ids.add(n.id)
+            elif isinstance(n, ast.Constant) and isinstance(n.value, str) and len(n.value) < 40:
+                ids.add("'" + n.value)
+    return sorted(ids)
+
+
+def _similar(a, b):
+    a, b = set(a), set(b)
+    return len(a & b) / float(len(a | b) or 1)
+
+
 def rename_normalise(sources):
     """Undo pure renames of methods against the symbol table of the pinned tree (baseline_names.json): when a class lost exactly the
     method `old` and gained exactly one method `new` with the same parameter list (or the pairing by parameter lists is unique), `new` is
@@ -737,6 +788,16 @@ def rename_normalise(sources):
             if isinstance(n, ast.FunctionDef):
                 all_names.add(n.name)
     ren = {}
+    prints = base.get('prints', {})
+    cur_prints = {}
+    for rel, t in trees.items():
+        mod = rel[:-3].replace('/', '.')
+        for st in t.body:
+            if isinstance(st, ast.ClassDef):
+                for m in st.body:
+                    if isinstance(m, ast.FunctionDef):
+                        cur_prints['%s.%s.%s' % (mod, st.name, m.name)] = fingerprint(m)
+    votes = collections.defaultdict(set)        # new name -> old names proposed for it (per class)
     for cq, meths in base.get('classes', {}).items():
         if cq not in cur:
             continue
@@ -748,6 +809,14 @@ def rename_normalise(sources):
             cands = [e for e in extra if cur[cq][e] == meths[old] and e not in ren]
             if len(missing) == 1 and len(extra) == 1:
                 cands = [e for e in extra if len(cur[cq][e]) == len(meths[old])]
+            if len(cands) > 1 and prints.get('%s.%s' % (cq, old)):
+                # several renamed siblings with one signature (e.g. the buy/sell twins): pair by what the bodies mention when that is decisive
+                fp_old = [x for x in prints['%s.%s' % (cq, old)] if x.lstrip('.') not in missing]
+                scored = sorted(((_similar(fp_old, [x for x in cur_prints.get('%s.%s' % (cq, e), []) if x.lstrip('.') not in extra]), e) for e in cands), reverse=True)
+                rivals = [_similar([x for x in prints.get('%s.%s' % (cq, o2), []) if x.lstrip('.') not in missing],
+                                   [x for x in cur_prints.get('%s.%s' % (cq, scored[0][1]), []) if x.lstrip('.') not in extra]) for o2 in missing if o2 != old]
+                if scored[0][0] >= 0.6 and scored[0][0] > scored[1][0] + 0.1 and all(scored[0][0] > x + 0.1 for x in rivals):
+                    cands = [scored[0][1]]
             if len(cands) > 1:
                 # several renamed siblings with one signature (e.g. the buy/sell twins): pair by name similarity when it is decisive
                 import difflib
@@ -755,9 +824,16 @@ def rename_normalise(sources):
                 others = [difflib.SequenceMatcher(None, o2, scored[0][1]).ratio() for o2 in missing if o2 != old]
                 if scored[0][0] > scored[1][0] + 0.1 and all(scored[0][0] > x + 0.1 for x in others):
                     cands = [scored[0][1]]
-            # the old name must not be in use elsewhere for something else, the new name must be unique in the package
-            if len(cands) == 1 and sum(1 for c2 in cur.values() if cands[0] in c2) == 1:
-                ren[cands[0]] = old
+            if len(cands) == 1:
+                votes[cands[0]].add(old)
+    for new, olds in votes.items():
+        # one new name stands for one old name everywhere it appears (the same helper renamed alike in sibling classes is fine);
+        # every class defining the new name must have lost the old one
+        if len(olds) == 1:
+            old = next(iter(olds))
+            holders = [cq for cq, ms in cur.items() if new in ms]
+            if all(cq in base.get('classes', {}) and old in base['classes'][cq] and old not in cur[cq] for cq in holders):
+                ren[new] = old
     if not ren:
         return sources, {}
     out = {}
